@@ -61,6 +61,7 @@ def run(chk):
     lay = {l['tys']: l for l in facts['layouts']}
     chk.guard('frame', 'layout', lambda: frame_layout(chk, lay))
     chk.guard('frame', 'iretq', lambda: iretq(chk, I))
+    chk.guard('frame', 'constructors', lambda: frame_ctor(chk, I))
     wf = set(facts['witness_fns'])
     n_seg = n_stub = 0
     for w in sorted(WITNESS):
@@ -95,6 +96,38 @@ def frame_layout(chk, lay):
     chk.ob('frame', 'InterruptStackFrame is a transparent wrapper of the value', 'IS_TRANSPARENT' in fr['repr'] and fr['size'] == SI.FRAME_SIZE and
            len(fr['fields']) == 1 and fr['fields'][0]['off'] == 0 and fr['fields'][0]['ty'].get('name') == FRAMEV, 'found %s' % fr['repr'])
     chk.count('layouts', 2)
+
+
+def frame_ctor(chk, I):
+    """InterruptStackFrame::new / InterruptStackFrameValue::new put each argument into its own hardware slot; Deref exposes that value"""
+    VA = {'k': 'adt', 'name': 'addr::VirtAddr', 'args': []}
+    SEL = {'k': 'adt', 'name': 'registers::segmentation::SegmentSelector', 'args': []}
+    RF = {'k': 'adt', 'name': 'registers::rflags::RFlags', 'args': []}
+    args = [I.sym_value(VA, 'ip'), I.sym_value(SEL, 'cs'), I.sym_value(RF, 'fl'), I.sym_value(VA, 'sp'), I.sym_value(SEL, 'ss')]
+    fidx = {f['name']: i for i, f in enumerate(I.layouts[FRAMEV]['fields'])}
+    for fn_, wrap in ((FRAMEV + '::new', False), (FRAME + '::new', True)):
+        if fn_ not in I.fn:
+            chk.unproven('frame', fn_.split('::', 2)[-1], 'function not found')
+            continue
+        outs = I.run(fn_, list(args), State())
+        chk.count('function-instances')
+        ok = len(outs) == 1 and outs[0].kind == 'ret'
+        if ok:
+            v = outs[0].val.fields[0] if wrap else outs[0].val
+            ok = isinstance(v, Struct) and v.name == FRAMEV
+            for name, a in zip(('instruction_pointer', 'code_segment', 'cpu_flags', 'stack_pointer', 'stack_segment'), args):
+                ok = ok and same(v.fields[fidx[name]], a)
+        chk.ob('frame', '%s stores (rip, cs, rflags, rsp, ss) in their own fields' % fn_.replace('structures::idt::', ''), ok, 'paths %r' % (outs,), fn_site(I, fn_))
+    dn = '<%s as core::ops::Deref>::deref' % FRAME
+    if dn in I.fn:
+        st = State()
+        st.mem[('arg', 'self')] = Struct(FRAME, [sym_frame(I)])
+        outs = I.run(dn, [Ref(('arg', 'self'))], st)
+        chk.count('function-instances')
+        ok = len(outs) == 1 and outs[0].kind == 'ret' and isinstance(outs[0].val, Ref) and outs[0].val.loc == ('arg', 'self') and outs[0].val.path == (0,)
+        chk.ob('frame', 'InterruptStackFrame derefs to the frame value it wraps', ok, 'paths %r' % (outs,), fn_site(I, dn))
+    else:
+        chk.unproven('frame', 'Deref for InterruptStackFrame', 'impl not found')
 
 
 def sym_frame(I):
